@@ -229,3 +229,32 @@ def write_replay(pid, v):
         json.dump(body, f, indent=1, sort_keys=True, default=repr)
         f.write('\n')
     return path
+
+
+def reset_global_memo():
+    """supp keeps one process-global scope of builtins whose name objects memoise what was evaluated through them.
+    Every fresh build starts from an empty one; done without knowing the names of the memo cells: the instance
+    dict is replaced by that of a newly constructed scope of the same class (identity kept)."""
+    import supp.scope as sc
+    bs = getattr(sc, 'builtin_scope', None)
+    if bs is None:
+        return
+    try:
+        fresh = type(bs)()
+    except Exception:
+        bs.__dict__.pop('names', None)
+        return
+    bs.__dict__.clear()
+    bs.__dict__.update(fresh.__dict__)
+
+
+def global_memo():
+    """the process-global builtin scope and its table of name objects (None while nothing was resolved)"""
+    import supp.scope as sc
+    bs = getattr(sc, 'builtin_scope', None)
+    names = None
+    for v in getattr(bs, '__dict__', {}).values():
+        if isinstance(v, dict) and v:
+            names = v
+            break
+    return bs, names
